@@ -12,7 +12,7 @@ import sys, json, struct
 prefix, sodir = sys.argv[1], sys.argv[2]
 sys.path.insert(0, sodir)
 import numpy as np
-from scipy.sparse import csc_matrix, coo_matrix, csr_matrix
+from scipy.sparse import csc_matrix, coo_matrix, csr_matrix, lil_matrix
 import ivp
 
 
@@ -254,7 +254,9 @@ def run_group(case, out):
         return d
 
     kw = dict(method=case["method"], rtol=1e-4, atol=1e-7)
-    fmt = [csc_matrix, coo_matrix, csr_matrix][case["id"] % 3]
+    # (pattern cases carry the id of every third solve case and every other one of them is an "unsorted" CSC case: cycle the
+    # container of the remaining ones by id // 6)
+    fmt = [csr_matrix, coo_matrix, csc_matrix, lil_matrix][(case["id"] // 6) % 4]
     why, key = "", ""
     try:
         if case.get("unsorted"):
